@@ -559,22 +559,23 @@ theorem loadData_benign {st : St} (hb : NoOther st.store) (i : Id) : ∃ d, load
 
 /-- Relative to the measured pickle contract, every proper prefix of a saved file is a record of a
     class that `_load` turns into "no session". -/
-theorem torn_prefix_benign (P : Pickle (Data × Nat)) (hP : P.Contract) (d : Data) (e n : Nat)
-    (hn : n < (P.dumps (d, e)).length) :
+theorem torn_prefix_benign (P : Pickle (Data × Nat)) (S : Data × Nat → Prop) (hP : P.Contract S)
+    (d : Data) (e n : Nat) (hS : S (d, e)) (hn : n < (P.dumps (d, e)).length) :
     fileRec P ((P.dumps (d, e)).take n) = .bad .eof ∨ fileRec P ((P.dumps (d, e)).take n) = .bad .unpickling := by
   unfold fileRec
-  rcases hP.truncated (d, e) n hn with h | h <;> rw [h] <;> simp
+  rcases hP.truncated (d, e) hS n hn with h | h <;> rw [h] <;> simp
 
-theorem whole_file_loads (P : Pickle (Data × Nat)) (hP : P.Contract) (d : Data) (e : Nat) :
-    fileRec P (P.dumps (d, e)) = .good d e := by
+theorem whole_file_loads (P : Pickle (Data × Nat)) (S : Data × Nat → Prop) (hP : P.Contract S)
+    (d : Data) (e : Nat) (hS : S (d, e)) : fileRec P (P.dumps (d, e)) = .good d e := by
   unfold fileRec
-  rw [hP.roundtrip]
+  rw [hP.roundtrip _ hS]
 
-/-- **Torn file = absent session, not an error.**  For every pickle meeting the contract, every saved
-    record and every truncation offset: a request presenting the id of the torn file is answered
-    normally, its handler sees an empty session, and the file sweep runs to the end. -/
-theorem C14_torn_file (P : Pickle (Data × Nat)) (hP : P.Contract) (cfg : Cfg) (st : St) (i : Id)
-    (d : Data) (e n : Nat) (hn : n < (P.dumps (d, e)).length)
+/-- **Torn file = absent session, not an error.**  For every pickle meeting the contract on the saved
+    values, every saved record and every truncation offset: a request presenting the id of the torn
+    file is answered normally, its handler sees an empty session, and the file sweep runs to the end. -/
+theorem C14_torn_file (P : Pickle (Data × Nat)) (S : Data × Nat → Prop) (hP : P.Contract S)
+    (cfg : Cfg) (st : St) (i : Id) (d : Data) (e n : Nat) (hS : S (d, e))
+    (hn : n < (P.dumps (d, e)).length)
     (hrec : lookup st.store i = some (fileRec P ((P.dumps (d, e)).take n)))
     (hrest : NoOther st.store) :
     (request cfg st (.id i) [.read]).2 = ⟨.ok, some i, false, [[]]⟩ ∧
@@ -583,28 +584,35 @@ theorem C14_torn_file (P : Pickle (Data × Nat)) (hP : P.Contract) (cfg : Cfg) (
   have hhas : has st.store i = true := by simp [has, hrec]
   have hload : loadData st i = some [] := by
     unfold loadData
-    rcases torn_prefix_benign P hP d e n hn with h | h <;> rw [hrec, h]
+    rcases torn_prefix_benign P S hP d e n hS hn with h | h <;> rw [hrec, h]
   simp [request, initSess, hhas, runHops, hop, ensureLoaded, hload, saveSess]
 
-/-- a pickle meeting the contract exists (payload `Bool`, two-byte encoding): the hypothesis of
-    `C14_torn_file` is not vacuous. -/
-def toyPickle : Pickle Bool where
-  dumps b := [if b then 1 else 0, 46]
+/-- a pickle meeting the contract for a saved value exists: the hypotheses of `C14_torn_file` are not
+    vacuous (two-byte file, one saved record). -/
+def toyValue : Data × Nat := ([(1, 7)], 3)
+
+def toyPickle : Pickle (Data × Nat) where
+  dumps _ := [1, 46]
   loads
     | [] => .exc .eof
     | [_] => .exc .eof
-    | [0, 46] => .ok false
-    | [1, 46] => .ok true
+    | [1, 46] => .ok toyValue
     | _ => .exc .unpickling
 
-example : toyPickle.Contract where
-  roundtrip := by intro x; cases x <;> rfl
+theorem toyPickle_contract : toyPickle.Contract (· = toyValue) where
+  roundtrip := by intro x hx; subst hx; rfl
   truncated := by
-    intro x n hn
-    cases x <;> simp [toyPickle] at hn ⊢ <;>
-      (match n, hn with
-       | 0, _ => simp
-       | 1, _ => simp)
+    intro x _ n hn
+    have hn' : n < 2 := hn
+    match n, hn' with
+    | 0, _ => exact Or.inl rfl
+    | 1, _ => exact Or.inl rfl
+
+example :
+    let st : St := { store := [(5, fileRec toyPickle ((toyPickle.dumps toyValue).take 1)), (6, .good [] 9)] }
+    lookup st.store 5 = some (fileRec toyPickle ((toyPickle.dumps toyValue).take 1)) ∧
+      (request exCfg st (.id 5) [.read]).2 = ⟨.ok, some 5, false, [[]]⟩ := by
+  decide
 
 
 /-! ### C14_no_resurrection -/
